@@ -91,3 +91,23 @@ def replay_window(inp):
         if why:
             bad.append({"consumed": steps[:4], "why": why})
     return {"violates": bool(bad), "detail": bad[:3]}
+
+
+def late_combine(inp):
+    """stderr data that arrived earlier is still unread when combining is switched on: moving it to the stdout buffer is
+    not consumption, so nothing may be handed back to the peer's window for it"""
+    from paramiko.message import Message
+    why = []
+    for n in (5000, 20000, 300000):
+        c, t = mk(2 ** 20, 2 ** 15)
+        m = Message()
+        m.add_int(1)
+        m.add_string(b"e" * n)
+        m.rewind()
+        c._feed_extended(m)
+        before_sent, before_sofar = len(t.sent), c.in_window_sofar
+        c.set_combine_stderr(True)
+        if len(t.sent) != before_sent or c.in_window_sofar != before_sofar:
+            why.append("%d unread stderr bytes moved: %d message(s) sent, in_window_sofar %d -> %d although the application "
+                       "has consumed nothing" % (n, len(t.sent) - before_sent, before_sofar, c.in_window_sofar))
+    return {"violates": bool(why), "detail": why[:3]}
